@@ -2,7 +2,7 @@
    The definitions FL_dispatch / FL_dens_dispatch / fsign are GENERATED from /repo on every run
    (Gen/Limiters.v); the closed forms sp_table are hand-written in Spec/LimiterSpec.v. *)
 From Coq Require Import Reals String List Floats.
-From PFV Require Import OField KOps Limiters LimiterSpec LimiterThy F64Ops FloatThy FloatLimThy.
+From PFV Require Import OField KOps Limiters LimiterSpec LimiterThy F64Ops FloatThy FloatLimThy FloatLim2Thy.
 Local Open Scope R_scope.
 
 (* every named limiter evaluates the published closed form, for every real r *)
@@ -62,8 +62,8 @@ Print Assumptions C13_fsign_ratio_bounded.
 (* ---- binary64 level: the regenerated definitions evaluated with Coq's primitive floats (FOps), i.e. the IEEE 754 arithmetic numpy
    performs; `fin k f` = f is a finite float and |f| <= 2^k (Theory/FloatThy.v, on Flocq's specification of primitive floats).
    The full statement "every named limiter returns a finite value for every finite r" is FALSE in binary64 (refuted below: r*r
-   overflows); proved is the part below.  Not proved: CHARM, HCUS, HQUICK, ospre (their denominators need error bounds, not only
-   monotonicity of rounding) -- hence _partial. *)
+   overflows); proved is the part below.  Not proved: CHARM and ospre (their denominators need rounding-error bounds / exact-cancellation facts, not only
+   monotonicity of rounding) -- hence _partial; HCUS and HQUICK have their own theorem below. *)
 Theorem C13_float_finite_partial : forall name eps r, In name float_safe_names -> fin 500 r ->
   fin 1002 (FL_dispatch FOps name eps r).
 Proof. exact float_safe_dispatch. Qed.
@@ -75,6 +75,14 @@ Print Assumptions C13_float_unknown_name_finite.
 Theorem C13_float_fin_is_finite : forall k f, fin k f -> PrimFloat.is_finite f = true.
 Proof. exact fin_finite. Qed.
 Print Assumptions C13_float_fin_is_finite.
+(* HCUS and HQUICK (numerator r + |r| exactly zero for r < 0, where the denominator r + c is a non-zero float -- gradual underflow -- or the
+   guard eps at r = -c; denominator >= c for r >= 0): finite for every float |r| <= 2^500 and every finite positive guard eps <= 1 *)
+Theorem C13_float_finite_HCUS_HQUICK : forall eps r, fin 0 eps -> 0 < FR eps -> fin 500 r ->
+  ffin (FL_HCUS FOps eps r) /\ ffin (FL_HQUICK FOps eps r).
+Proof. intros eps r He Hp Hr. split; [exact (float_HCUS eps r He Hp Hr)|exact (float_HQUICK eps r He Hp Hr)]. Qed.
+Print Assumptions C13_float_finite_HCUS_HQUICK.
+Example C13_float_default_eps_ok : fin 0 (eps_default FOps) /\ 0 < FR (eps_default FOps).
+Proof. exact eps_default_ok. Qed.
 (* the guard of the gradient ratios never overflows *)
 Theorem C13_float_fsign_finite : forall eps1 x, fin 0 eps1 -> fin 1000 x -> fin 1010 (fsign FOps eps1 x).
 Proof. exact float_fsign. Qed.
